@@ -66,6 +66,9 @@ func runSession(w *core.W, stmts []string, opt sess.Options) {
 	if o.Errors > 0 {
 		w.Count("sessions_with_runtime_error", 1)
 	}
+	if o.ParseErrors > 0 && !opt.AllowParseErrors {
+		w.HarnessError("a generated session contains a statement the parser rejects: %v", stmts)
+	}
 	if o.Sig != "" {
 		w.Fail(payloadOf(stmts), o.Sig, o.Detail)
 		return
